@@ -758,7 +758,7 @@ def _ufunc2(op):
         if isinstance(b, (list, tuple)):
             b = M._as_arr(b)
         if isinstance(a, MArr) or isinstance(b, MArr):
-            if op in ("and", "or", "minimum", "maximum", "lt", "le", "gt", "ge", "eq", "ne", "add", "sub", "mul"):
+            if op in ("and", "or", "xor", "minimum", "maximum", "lt", "le", "gt", "ge", "eq", "ne", "add", "sub", "mul"):
                 # a plain ufunc with a masked operand: raw data operation, union mask
                 return M.ma_ufunc2(op, a, b)
             raise Unsupported("np ufunc %s on masked operands" % op)
@@ -833,6 +833,8 @@ def build_np():
     np.datetime64 = M.datetime64
     np.uint8 = M.uint8
     np.int64 = M.int64
+    np.int_ = M.int64  # the platform integer (64 bit here): same kind in the model
+    np.intp = M.int64
     np.bool_ = M.bool_
     np.ndarray = Arr
     np.nan = _NAN
@@ -856,6 +858,8 @@ def build_np():
     np.invert = np_logical_not
     np.logical_and = _ufunc2("and")
     np.logical_or = _ufunc2("or")
+    np.logical_xor = _ufunc2("xor")
+    np.bitwise_xor = _ufunc2("xor")
     np.bitwise_and = _ufunc2("and")
     np.bitwise_or = _ufunc2("or")
     np.greater = _ufunc2("gt")
@@ -917,6 +921,25 @@ def build_np():
     ma.getdata = lambda a: M.getdata(a) if isinstance(a, MArr) else M._as_arr(a, copy=False)
     ma.getmaskarray = lambda a: (a.maskarr() if isinstance(a, MArr) else M.const_arr(M._as_arr(a, copy=False).n, "b", (False, False)).copy())
     ma.getmask = lambda a: (a.mask if isinstance(a, MArr) else M.NoMask)
+    def _ma_method(name):
+        # np.ma.<f>(a, ...) for functions that are the MaskedArray method of the same name
+        def f(a, *args, **kw):
+            if not isinstance(a, MArr):
+                if isinstance(a, (Arr, list, tuple)):
+                    a = M.as_masked(a) if hasattr(M, "as_masked") else MArr(M._as_arr(a), None)
+                else:
+                    raise Unsupported("np.ma.%s(%r)" % (name, type(a)))
+            return getattr(a, name)(*args, **kw)
+
+        return f
+
+    for _nm in ("reshape", "ravel", "flatten", "copy", "astype", "all", "any", "sum", "count", "nonzero"):
+        setattr(ma, _nm, _ma_method(_nm))
+    ma.absolute = _ufunc1("abs")
+    ma.abs = _ufunc1("abs")
+    ma.is_masked = lambda a: (M.reduce_any(a.maskarr(), None) if isinstance(a, MArr) else False)
+    ma.isMaskedArray = lambda a: isinstance(a, MArr)
+    ma.isMA = ma.isMaskedArray
     ma.core = types.SimpleNamespace(MaskedArray=MArr)
     np.ma = ma
     return np
